@@ -1,8 +1,15 @@
 package log
 
 //verif:witness H_C12_sync end
-//verif:bound C12 quick sync logger with 1..2 appender references of arbitrary int32 ranges, two raw writes of arbitrary bytes (length 0..2 each) through the named handle
+//verif:bound C12 quick sync logger with 1..2 appender references of arbitrary int32 ranges, two raw writes of arbitrary bytes (length 0..2 each, the first alternatively 70 000 bytes) through the named handle
 //verif:bound C12 thorough 1..3 references, payload length 0..3
+
+// vLargePayload: 70 000 bytes (more than the 64 KiB of the properties' quantifiers) with marked ends.
+func vLargePayload(first byte) []byte {
+	p := make([]byte, 70000)
+	p[0], p[len(p)-1] = first, ^first
+	return p
+}
 
 func H_C12_sync() {
 	maxK, maxN := 2, 2
@@ -24,7 +31,12 @@ func H_C12_sync() {
 	logger.AppenderRefs.AppenderRefs = refs
 	logger.sortByLevel()
 	h := &LoggerWrapper{name: "l", logger: logger}
-	p1 := vBytes("p1", vChoose("n1", maxN+1))
+	var p1 []byte
+	if n1 := vChoose("n1", maxN+2); n1 <= maxN {
+		p1 = vBytes("p1", n1)
+	} else {
+		p1 = vLargePayload(vByte("p1first")) // a large payload (beyond any pooled or buffered size)
+	}
 	p2 := vBytes("p2", vChoose("n2", maxN+1))
 	n1, err1 := h.Write(p1)
 	n2, err2 := h.Write(p2)
